@@ -169,6 +169,10 @@ class Replayer:
         if name in ('numpy.power', 'operator.pow'):
             kk = [int(k)] if k.denominator == 1 else []
             kk += [float(k), k, numpy.float64(float(k))]
+            if k.denominator & (k.denominator - 1):
+                # not a dyadic rational: only the exact spellings denote the exponent the model speaks of (a binary float does not)
+                import decimal
+                kk = [k, fractions.Fraction(k.numerator * 7, k.denominator * 7)]
             kv = kk[variant % len(kk)]
             return lambda a: f(a[0], kv)
         if name == 'operator.setitem':
@@ -179,7 +183,7 @@ class Replayer:
 
     def nvariants(self, e):
         if e['f'] in ('numpy.power', 'operator.pow'):
-            return 4 if e['k'][1] == 1 else 3
+            return 4 if e['k'][1] == 1 else 3 if not (e['k'][1] & (e['k'][1] - 1)) else 2
         return 1
 
     def step(self, e):
